@@ -64,7 +64,7 @@ func cmdCheck(args []string) int {
 	fs.IntVar(&o.seed, "seed", 0, "seed")
 	fs.IntVar(&o.timeout, "timeout", 0, "per-obligation solver timeout (s)")
 	fs.StringVar(&o.only, "only", "", "only functions whose name contains this")
-	fs.IntVar(&o.jobs, "jobs", 6, "parallel obligations")
+	fs.IntVar(&o.jobs, "jobs", 5, "parallel obligations")
 	fs.BoolVar(&o.noReplay, "noreplay", false, "skip replay")
 	fs.Parse(args)
 	if o.out == "" {
@@ -242,6 +242,9 @@ func solveAll(obls []*Obligation, o *checkOpts) {
 	for _, ob := range obls {
 		if ob.Trivial {
 			ob.Res = SolverResult{Status: "unsat", Solver: "trivial"}
+			if ob.ByHyp {
+				ob.Res.Solver = "by-hypothesis"
+			}
 			continue
 		}
 		ob := ob
@@ -257,7 +260,15 @@ func solveAll(obls []*Obligation, o *checkOpts) {
 				return
 			}
 			ob.Query = p
-			ob.Res = Solve(p, o.timeout, o.seed, o.tier == "thorough" && ob.Expect == "unsat")
+			files := []string{p}
+			if ob.Expect == "unsat" && ob.Label != "" && len(ob.fc.cmdGuard) > 0 {
+				if sq := ob.SlicedQueryText(); sq != q {
+					if p2, err := writeQuery(o.out, ob.Name+"__sliced", sq); err == nil {
+						files = append(files, p2)
+					}
+				}
+			}
+			ob.Res = SolveVariants(files, o.timeout, o.seed, o.tier == "thorough" && ob.Expect == "unsat")
 		}()
 	}
 	wg.Wait()
